@@ -484,7 +484,8 @@ CHECKS["C34"] = {
     "outside": "the digest itself (uninterpreted: only WHICH rows it is computed over is compared) and its text framing; more than two builder runs; the Go worker that calls the procedure",
     "assumptions": COMMON_ASSUME[2:] + SQL_ASSUME[1:2] + ["READ COMMITTED: a run of the procedure sees exactly the rows committed before it; sequence values are drawn at insert time and never rolled back; without HASH_LOGS=SYNC nothing orders log commits by id (InsertLog takes the advisory lock only for SYNC: shown by the captured SQL per feature set)"],
     "technique": "bounded symbolic evaluation (z3) of the selection query of the stored procedure, resolved from the migrations, over symbolic tables with a symbolic commit schedule",
-    "units": [py_unit("c34_blocks", "c34", [])],
+    "units": [py_unit("c34_blocks", "c34", []),
+              unit("./internal/storage", ["worker/c34.go"], "^Harness_C34W_", QT, swaps=C21_SWAPS, extra=[{"pkg": "internal/storage/common", "files": ["worker/c34common.go"]}], flags={"labels": "^(C34:|no-panic)", "max-decisions": 6000}, reach=["end"])],
 }
 
 
